@@ -326,7 +326,129 @@ fn check_schema(origin: &str, space: &str, text: &str, st: &mut Stats) {
     }
 }
 
+// ---- re-validation histories ("schemas reached by mutating ... until they validate") ----
+// state = a schema value; one step = edit it through the public fields, validate; an accepted result is
+// judged against the invariants and unwrapped (`into_inner`) to be edited again.
+
+const HIST_BASES: &[&str] = &[
+    "type Query{q:Int}",
+    "type Query{q:Int w:Float}",
+    "type Query{q:Query s:String}",
+    "input In{x:ID} type Query{q(i:In b:Boolean):Query}",
+];
+const HIST_SCALARS: [&str; 5] = ["Int", "Float", "String", "Boolean", "ID"];
+/// ops 0..5: add field `f<Scalar>: <Scalar>` to Query; 5: remove field `q`; 6: remove field `w`;
+/// 7..12: remove field `f<Scalar>`; 12: add field `u: Undefined` (makes the schema invalid); 13: remove `u`;
+/// 14: validate, and if accepted continue from `into_inner()`. Every history ends with a validation.
+const HIST_VALIDATE: usize = 14;
+const HIST_OPS: usize = 15;
+
+fn hist_op_name(op: usize) -> String {
+    match op {
+        0..=4 => format!("add f{0}:{0}", HIST_SCALARS[op]),
+        5 => "remove q".into(),
+        6 => "remove w".into(),
+        7..=11 => format!("remove f{}", HIST_SCALARS[op - 7]),
+        12 => "add u:Undefined".into(),
+        13 => "remove u".into(),
+        _ => "validate".into(),
+    }
+}
+
+fn hist_apply(s: &mut Schema, op: usize) -> bool {
+    let Some(ExtendedType::Object(q)) = s.types.get_mut("Query") else { return false };
+    let q = q.make_mut();
+    let mk = |n: &str| apollo_compiler::Name::new(n).expect("harness name");
+    let mut add = |q: &mut apollo_compiler::schema::ObjectType, f: &str, t: &str| -> bool {
+        if q.fields.contains_key(f) {
+            return false;
+        }
+        q.fields.insert(
+            mk(f),
+            apollo_compiler::schema::Component::new(FieldDefinition {
+                description: None,
+                name: mk(f),
+                arguments: Vec::new(),
+                ty: Type::Named(mk(t)),
+                directives: Default::default(),
+            }),
+        );
+        true
+    };
+    let remove = |q: &mut apollo_compiler::schema::ObjectType, f: &str| -> bool {
+        q.fields.len() >= 2 && q.fields.shift_remove(f).is_some()
+    };
+    match op {
+        0..=4 => add(q, &format!("f{}", HIST_SCALARS[op]), HIST_SCALARS[op]),
+        5 => remove(q, "q"),
+        6 => remove(q, "w"),
+        7..=11 => remove(q, &format!("f{}", HIST_SCALARS[op - 7])),
+        12 => add(q, "u", "Undefined"),
+        _ => remove(q, "u"),
+    }
+}
+
+/// Replay `ops` from base `b`; the invariants are judged after the LAST step only (earlier prefixes are
+/// histories of their own). Returns false if some op of the history is not enabled.
+fn run_history(b: usize, ops: &[usize], st: &mut Stats) -> bool {
+    let Ok(valid) = Schema::parse_and_validate(HIST_BASES[b], "s.graphql") else {
+        vcore::machinery_error("C15 history base does not validate")
+    };
+    let mut cur: Schema = valid.into_inner();
+    let case = || json!({"family": "history", "base": b, "base_text": HIST_BASES[b], "ops": ops,
+                         "history": ops.iter().map(|o| hist_op_name(*o)).collect::<Vec<_>>()});
+    // the explored history is `ops` followed by a final validation; a validation directly after another
+    // one, or as the first step, is a stutter of a shorter history and is skipped
+    let mut steps: Vec<usize> = ops.to_vec();
+    if steps.first() == Some(&HIST_VALIDATE) || steps.last() == Some(&HIST_VALIDATE) || steps.windows(2).any(|w| w[0] == HIST_VALIDATE && w[1] == HIST_VALIDATE) {
+        return false;
+    }
+    steps.push(HIST_VALIDATE);
+    for (i, op) in steps.iter().enumerate() {
+        if *op != HIST_VALIDATE {
+            if !hist_apply(&mut cur, *op) {
+                return false;
+            }
+            continue;
+        }
+        st.transitions += 1;
+        let last = i + 1 == steps.len();
+        let attempt = cur.clone();
+        match vcore::catch(move || attempt.validate()) {
+            Err(p) => {
+                st.fail_simple("panic", case(), format!("validate panicked: {p}"), ops.len() as u64);
+                return true;
+            }
+            Ok(Ok(v)) => {
+                if last {
+                    st.nontrivial += 1;
+                    let mut feat = Features::default();
+                    let bad = invariants(&v, &mut feat);
+                    st.outcome(if bad.is_empty() { "history: accepted, consistent" } else { "history: accepted, inconsistent" });
+                    for (inv, detail) in bad {
+                        st.fail_simple(inv, case(), format!("schema accepted after the history {:?} + validate from `{}` violates {inv}: {detail}",
+                            ops.iter().map(|o| hist_op_name(*o)).collect::<Vec<_>>(), HIST_BASES[b]), ops.len() as u64);
+                    }
+                }
+                cur = v.into_inner();
+            }
+            Ok(Err(_)) => {
+                if last {
+                    st.outcome("history: rejected (not judged)");
+                }
+            }
+        }
+    }
+    st.states += 1;
+    true
+}
+
 fn replay(case: &Value, st: &mut Stats) {
+    if case["family"].as_str() == Some("history") {
+        let ops: Vec<usize> = case["ops"].as_array().map(|a| a.iter().map(|x| x.as_u64().unwrap_or(0) as usize).collect()).unwrap_or_default();
+        run_history(case["base"].as_u64().unwrap_or(0) as usize, &ops, st);
+        return;
+    }
     check_schema(
         case["origin"].as_str().unwrap_or("replay"),
         case["space"].as_str().unwrap_or("mutation"),
@@ -346,8 +468,25 @@ fn main() {
     }
     let (stats, bounds) = schemas::sweep(chk.tier(), |c: &Case<'_>, st| check_schema(&c.origin, c.space, c.text, st));
     chk.absorb(stats);
+    let mut bounds = bounds;
+    let depth = chk.tier().pick(3, 4);
+    let k = HIST_OPS as u64;
+    let per_base = vcore::enumerate::count_upto(k, depth) - 1;
+    let stats = vcore::par_sweep(per_base * HIST_BASES.len() as u64, 64, |i, st| {
+        let mut seq = Vec::new();
+        vcore::enumerate::nth_upto(k, i % per_base + 1, &mut seq);
+        if run_history((i / per_base) as usize, &seq, st) {
+            st.count("histories explored", 1);
+        } else {
+            st.count("histories with a disabled step (skipped)", 1);
+        }
+    });
+    chk.absorb(stats);
+    bounds["histories"] = json!({"bases": HIST_BASES, "operations": (0..HIST_OPS).map(hist_op_name).collect::<Vec<_>>(), "max_depth": depth,
+        "step": "an edit of the unwrapped schema through its public fields, or `validate` (an accepted schema is unwrapped with into_inner() and edited further); every history ends with a validation, whose result is judged",
+        "sequences": per_base * HIST_BASES.len() as u64});
     chk.bounds = bounds;
-    chk.rule = "every in-alphabet schema of C14's spaces is given to Schema::parse_and_validate; non-trivial = accepted schemas \
+    chk.rule = "every in-alphabet schema of C14's spaces is given to Schema::parse_and_validate, and every sequence of <= max_depth edit / validate steps from each history base; non-trivial = accepted schemas \
                 (each is judged against every invariant of the statement)"
         .into();
     chk.assumptions = vec![
